@@ -47,6 +47,14 @@ def shared_c02_task(task):
     return relabel(p02.vc_task(task), 'C14')
 
 
+def purity_task(task):
+    """D-infinity, structural: no read-only member of State writes to the object (a board remembered by get_board_cards would stay
+    incomplete while the later run-outs are dealt)"""
+    import props.scans as SC
+    src = source(EXTRA)
+    return {'results': [SC.purity_result(src.trees['pokerkit.state'], 'C14')], 'contract': None}
+
+
 def main(argv=None):
     chk = Check('C14', 'proof', argv)
     source(EXTRA)
@@ -60,6 +68,7 @@ def main(argv=None):
                           # the row clause of deal_board needs ~25 s on an idle core: budget with head-room
                           'timeout_ms': 300000 if chk.tier == 'thorough' else (150000 if name == 'deal_board' else 30000)})
     if not only:
+        tasks.append({'module': 'props.c14', 'fn': 'purity_task', 'name': 'queries-are-pure'})
         import props.c02 as p02
         for sh in p02.shapes(chk.tier, 'begin_chips_pushing'):
             tasks.append({'module': 'props.c14', 'fn': 'shared_c02_task', 'name': f'_begin_chips_pushing/n{sh.n}b{sh.B}t{sh.T}', 'contract': 'begin_chips_pushing',
